@@ -147,7 +147,7 @@ int walk(int n, long acc) {
 """
 FIXED_SOURCES = [("known", SRC_KNOWN), ("min-mix", SRC_MIN), ("min-loop", SRC_MIN2), ("struct", SRC_STRUCT)]
 
-TYPES = ["char", "short", "int", "long", "unsigned char", "unsigned int"]
+TYPES = ["char", "short", "int", "long", "int", "unsigned int"]
 
 
 def gen_source(rng):
@@ -165,7 +165,10 @@ def gen_source(rng):
         if depth > 2 or r < 0.3:
             return rng.choice(vars_ + [str(rng.randint(0, 200))])
         if r < 0.8:
-            return f"({expr(vars_, depth + 1)} {rng.choice(['+', '-', '*', '&', '|', '^', '<<', '>>'])} {expr(vars_, depth + 1)})"
+            op = rng.choice(['+', '-', '*', '&', '|', '^', '<<', '>>'])
+            if op in ('<<', '>>'):
+                return f"({expr(vars_, depth + 1)} {op} ({expr(vars_, depth + 1)} & 7))"
+            return f"({expr(vars_, depth + 1)} {op} {expr(vars_, depth + 1)})"
         if r < 0.9 and funs:
             fn, np_ = rng.choice(funs)
             return f"{fn}({', '.join(expr(vars_, depth + 1) for _ in range(np_))})"
@@ -196,10 +199,10 @@ def gen_source(rng):
     for k in range(nfun):
         np_ = rng.randint(1, 7)
         params = [(rng.choice(TYPES), f"p{i}") for i in range(np_)]
-        locs = [(rng.choice(["int", "long", "char"]), f"v{i}") for i in range(rng.randint(1, 4))]
+        locs = [(rng.choice(["int", "long", "int"]), f"v{i}") for i in range(rng.randint(1, 4))]
         vars_ = [n for _, n in params + locs]
         body = [f"{t} {n} = {rng.randint(0, 9)};" for t, n in locs] + stmts(vars_, 0) + [f"return {expr(vars_, 0)};"]
-        out.append(f"{rng.choice(['int', 'long', 'short'])} f{k}({', '.join(t + ' ' + n for t, n in params)}) {{ {' '.join(body)} }}")
+        out.append(f"{rng.choice(['int', 'long', 'int'])} f{k}({', '.join(t + ' ' + n for t, n in params)}) {{ {' '.join(body)} }}")
         funs.append((f"f{k}", np_))
     return "\n".join(out) + "\n"
 
@@ -237,3 +240,193 @@ def determinism_search(ctx, sources, configs, seeds, workers=16):
             for key, hv in r.items():
                 results.setdefault((label, src_id(text), key), {}).setdefault(tuple(hv), []).append(f"{hs}/{variant}")
     return results
+
+
+# --------------------------------------------------------------------------------------
+# OrderedSet correspondence
+# --------------------------------------------------------------------------------------
+def fmt_list(xs):
+    return "[" + ",".join(str(x) for x in xs) + "]"
+
+
+def gen_history(rng, n):
+    uni = rng.choice([3, 5, 8, 12])
+    ops = []
+
+    def lst():
+        return [rng.randrange(uni + 2) for _ in range(rng.randint(0, 6))]
+
+    for _ in range(n):
+        r = rng.random()
+        v = rng.randrange(uni)
+        if r < 0.35:
+            ops.append(f"a{v}")
+        elif r < 0.55:
+            ops.append(f"d{v}")
+        elif r < 0.62:
+            ops.append(f"r{v}")
+        elif r < 0.70:
+            ops.append("p")
+        elif r < 0.73:
+            ops.append("c")
+        elif r < 0.80:
+            ops.append("|" + fmt_list(lst()))
+        elif r < 0.85:
+            ops.append("&" + fmt_list(lst()))
+        elif r < 0.90:
+            ops.append("-" + fmt_list(lst()))
+        elif r < 0.94:
+            ops.append("^" + fmt_list(lst()))
+        elif r < 0.97:
+            ops.append(rng.choice(["|s", "&s", "-s", "^s"]))
+        else:
+            ops.append("i" + fmt_list(lst()))
+    q = [rng.randrange(uni + 3) for _ in range(rng.randint(0, 6))]
+    return ops, q
+
+
+def parse_list(txt):
+    return [int(x) for x in txt[1:-1].split(",")] if len(txt) > 2 else []
+
+
+def run_real(ops, q):
+    """The same history on the real class; returns (model-format line, per-op (raised, list))."""
+    from ppci.utils.collections import OrderedSet
+    s = OrderedSet()
+    outs, states = [], []
+    for op in ops:
+        raised = False
+        try:
+            k, arg = op[0], op[1:]
+            if k == "a":
+                s.add(int(arg))
+            elif k == "d":
+                s.discard(int(arg))
+            elif k == "r":
+                s.remove(int(arg))
+            elif k == "p":
+                s.pop()
+            elif k == "c":
+                s.clear()
+            elif k == "i":
+                s = OrderedSet(parse_list(arg))
+            else:
+                other = s if arg == "s" else parse_list(arg)
+                if k == "|":
+                    s |= other
+                elif k == "&":
+                    s &= other
+                elif k == "-":
+                    s -= other
+                elif k == "^":
+                    s ^= other
+        except KeyError:
+            raised = True
+        cur = list(s)
+        outs.append(("K" if raised else "-") + fmt_list(cur) + str(len(s)))
+        states.append((raised, cur, len(s)))
+    n = len(list(s))
+    gets = ["N" if s[i] is None else str(s[i]) for i in range(-1, n + 2)]
+    has = ["t" if v in s else "f" for v in q]
+    line = (" ".join(outs) + " | rev" + fmt_list(list(reversed(s))) + " get[" + ",".join(gets) + "]" + " has[" + ",".join(has) + "]"
+            + " or" + fmt_list(list(s | q)) + " and" + fmt_list(list(s & q)) + " sub" + fmt_list(list(s - q)) + " xor" + fmt_list(list(s ^ q)) + f" n{n}")
+    return line, states
+
+
+CORPUS_HISTORIES = [
+    ([], []),
+    (["a3", "a1", "a3", "d1", "a1", "p", "r9", "|[5,6,5]", "^[6,7]", "&s", "-[3]"], [1, 5, 9]),
+    (["p"], [0]),
+    (["r0"], [0]),
+    (["a1", "a2", "a3", "d2", "a2", "d1", "a1"], [1, 2, 3]),
+    (["i[4,4,2,4,1]", "^[4,4,7]", "&[7,2,9]", "|s", "-s", "p"], [7]),
+    (["a1", "c", "c", "a1", "^s", "a2", "-[2,2]", "&[]"], []),
+    (["|[1,2,3,4,5,6]", "&[6,5,9,1]", "^[1,1,8]", "-[8]", "p", "p", "p", "p"], [5, 6]),
+]
+
+
+def check_orderedset(ctx):
+    rng = ctx.rng
+    hists = list(CORPUS_HISTORIES)
+    for _ in range(3000 if ctx.thorough else 300):
+        hists.append(gen_history(rng, rng.randint(1, 60)))
+    reqs = []
+    for ops, q in hists:
+        reqs.append("hist " + " ".join(ops) + " ? " + fmt_list(q))
+        reqs.append("spec " + " ".join(ops))
+    out = ctx.driver("C30", reqs)
+    for k, (ops, q) in enumerate(hists):
+        real_line, states = run_real(ops, q)
+        m, sp = out[2 * k], out[2 * k + 1]
+        ctx.count("eval_history")
+        ctx.count("eval_ops", len(ops))
+        if m != "ok " + real_line:
+            ctx.disagree("orderedset-history", reqs[2 * k][:300], real_line[:400], m[:400])
+        # the property of the sliver on the real class, oracle = Spec.OrderedSet through the driver
+        spec_states = sp[3:].split(" ") if len(sp) > 3 else []
+        if sp[:2] != "ok" or len(spec_states) != len(states):
+            ctx.disagree("orderedset-spec-line", reqs[2 * k + 1][:300], str(len(states)), sp[:200])
+            continue
+        hit_discard = reinsert = keyerr = False
+        for i, ((raised, cur, ln), ss) in enumerate(zip(states, spec_states)):
+            want_raise, want = ss[0] == "K", parse_list(ss[1:])
+            if cur != want:
+                ctx.fail("orderedset:iteration-order", f"after {' '.join(ops[:i + 1])}: list(s) = {cur}, insertion-ordered list = {want}", ops[:i + 1])
+                break
+            if raised != want_raise:
+                ctx.fail("orderedset:keyerror", f"after {' '.join(ops[:i + 1])}: raised={raised}, expected {want_raise}", ops[:i + 1])
+                break
+            if len(set(cur)) != len(cur) or ln != len(cur):
+                ctx.fail("orderedset:set-view", f"after {' '.join(ops[:i + 1])}: list(s) = {cur}, len(s) = {ln}", ops[:i + 1])
+                break
+            keyerr |= raised
+        if keyerr or any(o[0] in "dr-&^pc" for o in ops) and any(o[0] in "a|i" for o in ops[1:]):
+            ctx.nontrivial(("hist", " ".join(ops)))
+    ctx.sample({"request": reqs[2], "real": run_real(*hists[1])[0], "model": out[2], "spec": out[3]})
+
+
+# --------------------------------------------------------------------------------------
+# the check
+# --------------------------------------------------------------------------------------
+QUICK_CONFIGS = [[a, o] for a in ("arm", "riscv", "x86_64") for o in (0, 2)]
+THOROUGH_CONFIGS = [[a, o] for a in ("arm", "riscv", "x86_64", "arm:thumb", "riscv:rvc", "or1k", "microblaze", "msp430") for o in (0, 1, 2)]
+
+
+def check(ctx):
+    check_orderedset(ctx)
+
+    # ---- failing-input search for process-level determinism (NOT part of the proof) ----
+    rng = ctx.rng
+    sources = list(FIXED_SOURCES) + [(f"gen{i}", gen_source(rng)) for i in range(24 if ctx.thorough else 2)]
+    configs = THOROUGH_CONFIGS if ctx.thorough else QUICK_CONFIGS
+    seeds = list(range(8)) if ctx.thorough else [0, 1, 2, 3]
+    res = determinism_search(ctx, sources, configs, seeds)
+    texts = dict(sources)
+    compiled = 0
+    for (label, sid, key), variants in sorted(res.items()):
+        ctx.count("eval_determinism_triple")
+        hv = list(variants)
+        if all(h[0].startswith("raise-") for h in hv):
+            ctx.count("search_target_cannot_compile")     # consistently refuses: no information
+            if len(hv) > 1:
+                ctx.fail(f"nondet-error:{sid}:{key}", f"{label} for {key}: different exceptions in different processes: {sorted(h[0] for h in hv)}", {"source": texts[label], "config": key})
+            continue
+        compiled += 1
+        ctx.nontrivial(("triple", sid, key))
+        if len(hv) > 1:
+            objs = {h[0] for h in hv}
+            what = "object files" if len(objs) > 1 else "linked images"
+            ctx.fail(f"nondet:{sid}:{key}", f"{label} ({sid}) for {key}: {len(hv)} different {what} over PYTHONHASHSEED/process variants "
+                     f"{ {h[0][:8]: v[:3] for h, v in variants.items()} }", {"source": texts[label], "config": key, "seeds": seeds})
+    ctx.extra_cov["exhaustive"] = False
+    ctx.extra_cov["determinism_search"] = {
+        "role": "failing-input search only; a clean search is not evidence of determinism",
+        "sources": [f"{l}:{src_id(t)}" for l, t in sources], "configs": [f"{a}:O{o}" for a, o in configs],
+        "hash_seeds": seeds, "variants": ["fresh", "after-unrelated (unrelated module first, configurations reversed)"],
+        "triples_compiled": compiled, "triples_total": len(res),
+    }
+    ctx.sample({"determinism_triples_compiled": compiled, "of": len(res), "seeds": seeds})
+
+
+def replay(ctx, rp):
+    check(ctx)
